@@ -131,6 +131,13 @@ func init() {
 		p.BadDecl = 0.01
 		p.ValueBad = 0.02
 	}, oracleNoPanic, oracleExec)
+	{
+		base := props["C06"]
+		props["C06"] = propRun{rule: base.rule + "; required stage: command paths with occurrences of a random subset of the options in scope and a chosen number of positional words; the expected outcome (success, or ErrRequired naming exactly the missing options, or exactly the unsatisfied positional arguments of the active command) is computed from the public model", run: func(c *Ctx) {
+			base.run(c)
+			checkC06Required(c, budget(c.Tier, 1500, 60000))
+		}}
+	}
 	parseProp("C07", caseRule+"emphasis: unknown / near-miss / out-of-scope options under the three policies", 2500, 100000, func(p *Profile) {
 		p.Unknown = 0.25
 		p.Weird = 0.05
@@ -146,6 +153,13 @@ func init() {
 		p.BadDecl = 0.01
 		p.PosArgs = 0.1
 	}, oracleNoPanic)
+	{
+		base := props["C08"]
+		props["C08"] = propRun{rule: base.rule + "; scope stage: command paths with occurrences of spellings that several commands of the path declare (the innermost declaration must receive the value, the outer ones stay untouched) and of options of commands outside the path (ErrUnknownFlag), expected outcome computed independently", run: func(c *Ctx) {
+			base.run(c)
+			checkC08Scope(c, budget(c.Tier, 1500, 60000))
+		}}
+	}
 	parseProp("C09", caseRule+"emphasis: executable commands at every level, faults injected in otherwise valid vectors, CommandHandler", 2500, 100000, func(p *Profile) {
 		p.MaxCmdDepth = 3
 		p.Required = 0.3
@@ -165,6 +179,13 @@ func init() {
 		p.Unknown = 0.03
 		p.BadDecl = 0.01
 	}, oracleNoPanic, oracleConserved)
+	{
+		base := props["C10"]
+		props["C10"] = propRun{rule: base.rule + "; binding stage: numbered words interleaved with flags, before and after the terminator (option-looking words after it), on commands with positional fields of every kind and a trailing slice; where each word must land (field by declaration order, rest slice, remaining arguments) is computed from the declaration order alone", run: func(c *Ctx) {
+			base.run(c)
+			checkC10Bind(c, budget(c.Tier, 1500, 60000))
+		}}
+	}
 }
 
 // GenMixedCase: one declaration, a random sequence of operations of every kind.
